@@ -99,6 +99,7 @@ type HarnessDef struct {
 	Test    string `json:"test"`    // test function name
 	Scope   string `json:"scope"`   // stated bound
 	Props   []string `json:"props"`
+	Race    bool     `json:"race,omitempty"` // run under the race detector
 }
 
 func loadHarnesses() []HarnessDef {
@@ -142,6 +143,9 @@ func runHarness(h HarnessDef, tier string, seed int64, replay string) HarnessRun
 	ovFile := filepath.Join(tmp, "ov.json")
 	os.WriteFile(ovFile, ovData, 0o644)
 	args := []string{"test", "-overlay", ovFile, "-vet=off", "-count=1", "-timeout", "300s", "-run", "^" + h.Test + "$", "./" + h.Pkg}
+	if h.Race {
+		args = append(args[:1], append([]string{"-race"}, args[1:]...)...)
+	}
 	cmd := exec.Command("go", args...)
 	cmd.Dir = repoDir
 	cmd.Env = append(os.Environ(), "GOFLAGS=-mod=mod", "GOPROXY=off", "GOSUMDB=off", "GOTOOLCHAIN=local",
@@ -165,9 +169,12 @@ func runHarness(h HarnessDef, tier string, seed int64, replay string) HarnessRun
 	if err != nil && !hr.Failed {
 		if strings.Contains(hr.Output, "[build failed]") || strings.Contains(hr.Output, "[setup failed]") {
 			hr.BuildErr = true
-		} else if strings.Contains(hr.Output, "--- FAIL") || strings.Contains(hr.Output, "panic:") {
+		} else if strings.Contains(hr.Output, "--- FAIL") || strings.Contains(hr.Output, "panic:") || strings.Contains(hr.Output, "DATA RACE") {
 			hr.Failed = true
 			hr.FailLine = "test failed without GOVC-FAIL line (panic?)"
+			if strings.Contains(hr.Output, "DATA RACE") {
+				hr.FailLine = "DATA RACE reported by the race detector (64 concurrent FormatFile requests on one cache)"
+			}
 		} else {
 			hr.BuildErr = true
 		}
